@@ -568,6 +568,8 @@ def analyze(ctx, want):
                 if s not in li[hm]["body"]:
                     outs.add(s)
         for o in sorted(outs):
+            if fd.is_unreachable_block(o):
+                continue
             ex = S.Engine(fd, F, Model(), cut_edges=back, inline=GETTERS)
             ps = ex.run(o, named_init(fd, ex.fid))
             for p in ps:
